@@ -77,7 +77,7 @@ def gen_targeted(run, n):
             if c < 0.5:
                 stmts.append(("assign", ("text", r["pfx"], q), g.lit() if rng.random() < 0.7 else g.inf(1)))
             elif c < 0.75:
-                stmts.append(("delext", r["pfx"], q, (not fields_only) and rng.random() < 0.4))
+                stmts.append(("delext", r["pfx"], q, rng.random() < 0.35))     # compacting deletions are not covered by the theorem: the oracle judges them
             elif c < 0.9:
                 # the read-only-near path is the ok target, the err target, or both (each is verified separately)
                 tq = ("text", r["pfx"], q)
